@@ -359,6 +359,26 @@ func runC18(c *Ctx) {
 	c12NameRecorded(c, "flag-name-recorded")
 	c.rule("file-manglers-per-call", "the mangler list wrapped around the config file's decoder is built by the call that uses it (no package-level base slice whose spare capacity later calls write into)", 1)
 	c18FileManglersPerCall(c, "file-manglers-per-call")
+	// the file layer of ez: its decoder's chain starts with the alias mangler (a file key written under the alias in
+	// the file's casing is honoured, C14), and a watched file's later changes are noticed under the path the config
+	// resolves to now (C17)
+	c.rule("alias-first", "(shared with C14) in the ez file decoder's chain the alias mangler is the first, unconditional element: the alias copy is made before the file's field-name re-casing, so an alias written in the file's casing sets its leaf", 1)
+	for _, cs := range aliasChains(c) {
+		if cs.name != "ez" {
+			continue
+		}
+		idx := -1
+		for i, e := range cs.chain {
+			if e.Type == "transform.AliasMangler" {
+				idx = i
+			}
+		}
+		c.check(idx == 0 && !cs.chain[0].Conditional, "alias-first", cs.name, cs.pos, "chain: "+chainString(cs.chain), "alias mangler is not the first unconditional element: "+chainString(cs.chain))
+	}
+	c.rule("filter-current-path", "(shared with C17) the file-event filter of the watching file source compares an event's name with the config path as last re-resolved by the loop: later changes of a watched config file are re-stacked after its symlink moved", 1)
+	if loop := c.W.fn("sources/file", "WatchingSource.watchLoop"); c.need(loop != nil, "sources/file.WatchingSource.watchLoop") {
+		c17FilterCurrentPath(c, loop, "filter-current-path")
+	}
 	c13Body(c)
 	c18ParamsReachDecoder(c)
 
